@@ -146,11 +146,13 @@ double OPNMIDIplay::Tick(double s, double granularity)
 {
     MidiSequencer &seqr = *m_sequencer;
     double ret = seqr.Tick(s, granularity);
+    const double tempoMultiplier = seqr.getTempoMultiplier();
 
-    s *= seqr.getTempoMultiplier();
+    s *= tempoMultiplier;
     TickIterators(s);
 
-    return ret;
+    // The sequencer counts in song time, the caller waits in real time
+    return ret / tempoMultiplier;
 }
 
 #endif /* OPNMIDI_DISABLE_MIDI_SEQUENCER */
